@@ -10,6 +10,44 @@ import (
 var _ = reg("C09_Split", C09_Split)
 var _ = reg("C09_Variable", C09_Variable)
 var _ = reg("C09_Context", C09_Context)
+var _ = reg("C09_NestedCurrent", C09_NestedCurrent)
+
+var nestedCurrentPaths = []string{
+	"$ ? (@.a ? (@.b > 0).a[@.b] > 0)",
+	"$[*] ? (@.a ? (@.b > 0).a[@.b] > 0).b",
+	"$ ? (@.a ? (exists(@.a)).a[@.b] == 1)",
+	"$ ? (@.a ? (@.b > 0).b == @.b)",
+	"$ ? (@.a[*] ? (@ > 0)[@.b] > 0)",
+}
+
+// C09_NestedCurrent: after a nested filter that is followed by further steps
+// (a subscript that uses @ among them), @ again denotes the outer item.
+func C09_NestedCurrent() {
+	src := modePrefix() + nestedCurrentPaths[nd.Choice(len(nestedCurrentPaths))]
+	leaf := nd.Spec{Kinds: nd.KFloat}
+	arr := func() any {
+		n := nd.Choice(3)
+		a := make([]any, n)
+		for i := range a {
+			a[i] = nd.JSON(leaf)
+		}
+		return a
+	}
+	var inner any
+	switch nd.Choice(3) {
+	case 0:
+		inner = map[string]any{"a": arr(), "b": nd.JSON(leaf)}
+	case 1:
+		inner = arr()
+	case 2:
+		inner = map[string]any{"a": nd.JSON(leaf)}
+	}
+	var doc any = map[string]any{"a": inner, "b": nd.JSON(leaf)}
+	if nd.Choice(2) == 1 {
+		doc = []any{doc, map[string]any{"b": nd.JSON(leaf)}}
+	}
+	checkAgainstRef("C09/nested-current "+src, src, doc, nil, "C09/null-element-dropped")
+}
 
 var compSteps = []string{
 	".a", ".b", ".*", "[*]", "[0]", "[last]", "[0 to 1]", ".**",
